@@ -44,7 +44,7 @@ Family == {
 
 O(op, arg) == [op |-> op, arg |-> arg]
 StepSet == {O("x", VNone), O("X", VNone), O("P", VStr("a")), O("P", VStr("0")), O("P", VStr("b")),
-            O("[", Lit(VInt(0))), O(".", VStr("a"))}
+            O("[", Lit(VInt(0))), O("[", Lit(VStr("b"))), O(".", VStr("a"))}
 SeqsUpTo(S, n) == UNION {[1..m -> S] : m \in 0..n}
 
 VARIABLES heap, root, ops, pred, phase
